@@ -52,7 +52,11 @@ def run(ch, config, res):
         nops = 5 + wl.int("nops", 36)
         rsz = [4096, 1, 7, 64][wl.weighted("read_size", [6, 1, 1, 1])]
         shapes = wl.flag("status_shapes", 1, 3)
-    cfg = ServerConfig(version=version, max_scripts=3, max_script_size=120, max_total=260)
+        # the session may be opened with any mechanism, with or without an authorisation id: what connect() reports has to
+        # match what the server decided whichever exchange led there
+        sasl = [["PLAIN"], ["DIGEST-MD5"], ["LOGIN"], ["OAUTHBEARER"]][wl.weighted("sasl", [5, 2, 1, 1])]
+        authz = "admin" if (sasl[0] in ("PLAIN", "DIGEST-MD5") and wl.flag("authz", 1, 3)) else ""
+    cfg = ServerConfig(version=version, max_scripts=3, max_script_size=120, max_total=260, sasl_pre=sasl)
     world = World(ch, cfg, client_impl=config.get("client", "real"), read_size=rsz)
     srv = world.server
     srv.order_variation = True
@@ -74,6 +78,8 @@ def run(ch, config, res):
         return k
     srv.fault_hook = fault_hook
     srv.text_lit_variation = True
+    with ch.scope("srvcfg"):
+        srv.digest_final_in_ok = ch.srv.flag("digest_final_in_ok", 1, 2)
     # in a third of the sessions status replies take every RFC 5804 shape (codes, multi-line literal texts with
     # look-alike lines): their content is C09's business, a reply left half-read is a desynchronisation = ours
     srv.status_variation = shapes
@@ -91,9 +97,9 @@ def run(ch, config, res):
             fail("C15.server-violation", "during %s the server received something illegal: %s %r" % (where, v[2], v[3]))
 
     def connect(client, label):
-        o = world.call(client, "connect", "user", "password")
+        o = world.call(client, "connect", "user", "password", authz_id=authz) if authz else world.call(client, "connect", "user", "password")
         if not (o.kind == "ret" and o.value is True):
-            fail("C15.connect", "%s: connect against a conforming server %r" % (label, o))
+            fail("C15.connect", "%s: connect (SASL %s%s) against a conforming server %r" % (label, sasl[0], ", authz_id=%r" % authz if authz else "", o))
             return False
         check_violations(label)
         return failure[0] is None
@@ -137,8 +143,9 @@ def run(ch, config, res):
                         o = world.call(client, "connect", "user", "password", starttls=True)
                         how = "starttls=True) although the server does not offer STARTTLS"
                     else:
-                        o = world.call(client, "connect", "user", "password", authmech="LOGIN")
-                        how = "authmech='LOGIN') returned True although the server announces PLAIN only"
+                        other = "LOGIN" if sasl[0] != "LOGIN" else "PLAIN"
+                        o = world.call(client, "connect", "user", "password", authmech=other)
+                        how = "authmech=%r) returned True although the server announces %s only" % (other, sasl[0])
                     if o.kind == "ret" and o.value is True:
                         fail("C15.mismatch", "op %d: connect(%s" % (i, how))
                     o2 = world.call(client, "listscripts")
@@ -157,8 +164,10 @@ def run(ch, config, res):
                 elif op == "putscript":
                     counter[0] += 1
                     body = "# body %d\r\nkeep;\r\n" % counter[0]
-                    v = wl.weighted("variant", [6, 1, 1, 1])
-                    if v == 3:
+                    v = wl.weighted("variant", [6, 1, 1, 1, 1])
+                    if v == 4:
+                        body = ""      # the empty script (a server may send it back as "" or as {0})
+                    elif v == 3:
                         body += "\ufeff# bom line\r\nx\u2028y\r\n"
                     elif v == 1:
                         body += "INVALID\r\n"
